@@ -2912,6 +2912,32 @@ void mmd_engine_convert_to_file(mmd_engine * e, short format, const char * direc
 			textbundle_write_wrapper(filepath, output, e, directory);
 			break;
 
+		case FORMAT_ODT:
+		case FORMAT_FODT:
+		case FORMAT_ITMZ: {
+			// These formats need their wrapper/package, just like mmd_engine_convert_to_data()
+			DString * data;
+
+			if (format == FORMAT_ODT) {
+				data = opendocument_text_create(output, e, directory);
+			} else if (format == FORMAT_FODT) {
+				data = opendocument_flat_text_create(output, e, directory);
+			} else {
+				data = itmz_create(output, e, directory);
+			}
+
+			if (!(output_stream = fopen(filepath, "wb"))) {
+				// Failed to open file
+				perror(filepath);
+			} else {
+				fwrite(data->str, data->currentStringLength, 1, output_stream);
+				fclose(output_stream);
+			}
+
+			d_string_free(data, true);
+			break;
+		}
+
 		default:
 
 			// Basic formats just write to file
